@@ -67,6 +67,8 @@ fn main() {
         "C10" => props::trans::C10,
         "C11" => props::trans::C11,
         "C12" => props::trans::C12,
+        "C31" => props::small::C31,
+        "C32" => props::small::C32,
     );
     std::process::exit(code);
 }
